@@ -8,7 +8,8 @@ module defines (their own orientation is a separate instance), the operands are 
 
 Decided: the direct method is tried first, with (self, other) in this order, and its result returned; only if it fails the
 partner method named by the table -- `__radd__` for `__add__`, `__add__` for `__radd__` -- is called ON `other` WITH `self`, and
-its result returned; if both fail a GuppyTypeError is raised.
+its result returned; if both fail a GuppyTypeError is raised.  Both operands are traced objects (instances of the same class:
+Python itself never tries the reflected method then, so `NotImplemented` is not a way out).
 """
 
 from __future__ import annotations
@@ -56,8 +57,9 @@ def run(ctx: Ctx) -> bool:
                 bound.__gsa_lambda__ = True
                 return bound
 
-            me = Tok("left_operand", _ty=Tok("ty_self"), __ident__=1)
-            other = Tok("right_operand", _ty=Tok("ty_other"), __ident__=1)
+            # both operands are traced values (`i + f` with i: int, f: float): they are instances of the mixin's classes
+            me = Tok("left_operand", _ty=Tok("ty_self"), __class__="GuppyObject", __bases__=("DunderMixin",), __ident__=1)
+            other = Tok("right_operand", _ty=Tok("ty_other"), __class__="GuppyObject", __bases__=("DunderMixin",), __ident__=1)
             for t in (me, other):
                 t.attrs["__methods__"] = {"__getattr__": getattr_}
             state = Tok("state", dfg=Tok("dfg", builder=Tok("builder")), node=Tok("node"), ctx=Tok("ctx"), __ident__=1)
